@@ -43,7 +43,7 @@ def removeAt (l : List Tok) (i : Nat) : List Tok := l.take i ++ l.drop (i + 1)
 /-- one round of the `while has_redirect_from` loop (types.rs:174-196) for marker `m` -/
 def extractFrom (m : Str) (st : List Tok × Str × Str) : List Tok × Str × Str :=
   let (ts, ty, v) := st
-  match ts.findIdx? (fun x => x.2 = m) with
+  match ts.findIdx? (fun x => x.1 = [] ∧ x.2 = m) with
   | none => (ts, ty, v)
   | some idx =>
     let ts1 := removeAt ts idx
@@ -53,7 +53,7 @@ def extractFrom (m : Str) (st : List Tok × Str × Str) : List Tok × Str × Str
 def fromLoop : Nat → List Tok × Str × Str → List Tok × Str × Str
   | 0, st => st
   | f + 1, st =>
-    if st.1.any (fun x => x.2 = ['<'] ∨ x.2 = ['<', '<', '<']) then
+    if st.1.any (fun x => x.1 = [] ∧ (x.2 = ['<'] ∨ x.2 = ['<', '<', '<'])) then
       fromLoop f (extractFrom ['<', '<', '<'] (extractFrom ['<'] st))
     else st
 
@@ -84,7 +84,7 @@ def fromTokensAll : List (List Tok) → Except String (List Command)
 def planOfTokens (ts : List Tok) : Except String Plan :=
   let (envs, ts1) := drainEnvTokens ts
   let (bg, ts2) :=
-    if ts1.length > 1 ∧ (ts1.getLast?.map (·.2)) = some ['&'] then (true, ts1.dropLast) else (false, ts1)
+    if ts1.length > 1 ∧ ts1.getLast? = some ([], ['&']) then (true, ts1.dropLast) else (false, ts1)
   match fromTokensAll (splitByPipes ts2) with
   | .error e => .error e
   | .ok cs => .ok { commands := cs, envs := envs, background := bg }
